@@ -3,6 +3,9 @@ CONSTANTS
   Family = "A3"
   Mode = "id"
   Seeds = {1, 2}
+  Check = TRUE
+  RndN = 5
+  RndK = 4
 INVARIANT Sound
 INVARIANT Complete
 INVARIANT Vocab
